@@ -10,6 +10,12 @@ functions' globals, so every probe statement reaches this module through ``__imp
 from __future__ import annotations
 
 LOG: list = []
+class _Box:      # target of attribute / subscript assignments in materialised modules
+    def __init__(self):
+        self.d = {}
+
+
+BOX = _Box()
 EVENTS: list = []      # real-tree run: one ordered stream of flag changes, module boundaries and statement probes
 
 
